@@ -780,6 +780,22 @@ impl<'s> Runner<'s> {
                     None => return self.c09(format!("packet-load-base/{}", engine.name()), at, format!("{}: packet load of byte {} (packet length {}) -> {}", who, idx, plen, obs.outcome.short())),
                 }
             }
+            Class::ProbeCallThenPkt => {
+                if plen < prog.min_pkt {
+                    return None;
+                }
+                let (i, j) = (prog.p0 as usize, prog.p1 as usize);
+                let expected = ((((self.sc.packets[pkt][i] as u64) << 8) | self.sc.packets[pkt][j] as u64) << 8) | prog.tag as u64;
+                if let Outcome::Ok(v) = obs.outcome {
+                    if v & 0xff != prog.tag as u64 || v >> 24 != 0 {
+                        return None;
+                    }
+                    self.counters.inc("c09_pkt_checks");
+                    if v != expected {
+                        return self.c09(format!("packet-load-base/{}", engine.name()), at, format!("{}: ldabsb {} inside a local function and ldabsb {} after it returned gave {:#x}, expected {:#x}", who, i, j, v >> 8, expected >> 8));
+                    }
+                }
+            }
             Class::ProbeHelperThenPkt => {
                 // r0 = packet byte << 32 | low half of what the program stored at r10-512, then the tag
                 let idx = prog.p0 as usize;
